@@ -70,6 +70,13 @@ def audit(pid, thorough=False):
     res = {"ok": False, "obligations": 0, "discharged": 0, "theorems": {}, "problems": [], "examples": 0,
            "checker_cmd": "cd lean && lake build Ftp.Props.%s && lake env lean <generated #print axioms file>%s"
                           % (pid, " && lake env leanchecker Ftp.Props.%s" % pid if thorough else "")}
+    # translator: regenerate the tables / constants the model shares with the source (Ftp/Generated/SourceFacts.lean) from
+    # the current tree; the `*s.lean` theorems of the properties that depend on them are rebuilt below
+    try:
+        import gen_source_facts
+        gen_source_facts.generate()
+    except Exception as e:
+        res["problems"].append("translator tools/gen_source_facts.py could not read the source: %s" % e)
     req_path = os.path.join(ROOT, "tools", "required_theorems.json")
     required = json.load(open(req_path)).get(pid, []) if os.path.exists(req_path) else []
     path, names = theorems_of(pid)
